@@ -106,6 +106,17 @@ def _worker(mod, seed, tier, counter, nruns, out_path, wall_per_run, budget_s, t
             out.flush()
 
 
+def sweep_scratch():
+    """Removes scratch trees under /dev/shm left behind by processes that no longer exist."""
+    import glob
+    import re
+    import shutil
+    for d in glob.glob('/dev/shm/verif-*-*-*'):
+        mm = re.match(r'/dev/shm/verif-[a-z0-9]+-(\d+)-\d+$', d)
+        if mm and not os.path.exists('/proc/%s' % mm.group(1)):
+            shutil.rmtree(d, ignore_errors=True)
+
+
 def run_batch(mod, seed, tier, nruns, nproc, wall_per_run=120, budget_s=None):
     """Fork nproc workers after warm-up; workers take the next run index from a shared counter"""
     ctx = multiprocessing.get_context('fork')
@@ -150,6 +161,7 @@ def run_batch(mod, seed, tier, nruns, nproc, wall_per_run=120, budget_s=None):
         os.rmdir(tmp)
     except OSError:
         pass
+    sweep_scratch()
     for i in sorted(records):
         if 'harness_error' in records[i]:
             errors.append(records[i]['harness_error'])
